@@ -509,7 +509,10 @@ def run_case(tape, batch):
     # (for a list of files the rules are applied to the list as a whole: a declaration that
     #  continues in the next file is not demanded to be rejected)
     definitely_invalid = []
-    alltoks = [tk for tx in parsed_files for tk in L.scan(tx)[0]]
+    # (a file list is read as the tool reads it since fix 1ff5a16: the files joined by a newline -- so a
+    #  comment left open at the end of one file swallows the beginning of the next, for the oracle as for wrap)
+    joined = "\n".join(parsed_files)
+    alltoks = L.scan(joined)[0]
     bc = L.bracket_counts(alltoks)
     # Brackets must balance -- except inside a default-value / initialiser expression, where the grammar's
     # nested-expression rule lets one kind of bracket stand alone inside the other kind (`= { ) }`), and a
@@ -572,7 +575,7 @@ def run_case(tape, batch):
                                       "directly raises %s: %s" % (type(e).__name__, str(e)[:200])}
         if calls is not None:
             unparsed = "\n".join(u for _, u in calls)
-            a = L.bag([tk for tx in parsed_files for tk in L.normalise(L.scan(tx)[0])])
+            a = L.bag(L.normalise(L.scan(joined)[0]))
             b = L.bag(L.normalise(L.scan(unparsed)[0]))
             if a != b:
                 miss, extra = L.bag_diff(a, b)
@@ -698,7 +701,7 @@ def _classify_o1(parsed_files, tree_bag, miss, extra):
     if len(parsed_files) > 1 and glued == tree_bag:
         return "lost-at-file-boundary"
     if all(tok in QUALS for tok, _ in miss):
-        a = L.bag([tk for tx in parsed_files for tk in _strip_f7_positions(L.normalise(L.scan(tx)[0]))])
+        a = L.bag(_strip_f7_positions(L.normalise(L.scan("\n".join(parsed_files))[0])))
         if a == tree_bag:
             return "dropped-qualifiers:template-list-or-typedef"
         return "dropped-qualifiers:elsewhere"
